@@ -9,7 +9,9 @@ import (
 	"golang.org/x/tools/go/ssa"
 )
 
-func init() { register("C16", "script channels and goroutines deliver every message once, in order", checkC16) }
+func init() {
+	register("C16", "script channels and goroutines deliver every message once, in order", checkC16)
+}
 
 // selectSite describes one reflect.Select call of package vm.
 type selectSite struct {
